@@ -181,8 +181,9 @@ func impersonate(ca, other *tlsm.CA, certKind string, maxVer uint16) (connected 
 }
 
 func runC16(r *Result, d *drv.Driver, tier string, seed int64, replay string) {
+	defer c16Sequences(r)
 	r.Rule = "exhaustive peer matrix against the real crypto/tls: a peer with certificate in {none, valid, self-signed, other CA, expired, wrong host} x max TLS version in {1.0, 1.1, 1.2, 1.3}, plus a plaintext peer, a peer that connects and leaves without sending anything, and one that leaves after the first bytes of a TLS record, " +
-		"attacks a Server (with read/write timeouts 2s, and with none) whose config (weak prior contents) went through DefaultServerTLSConfig - observed: session-auth / request-auth / handler invocations and whether a KMIP response came back; and a TLS server with each certificate x version impersonates towards a Client prepared by DefaultClientTLSConfig - observed: Connect result and application bytes received. Expected outcome = the model's handshake predicate. distinct = one per matrix cell"
+		"attacks a Server (with read/write timeouts 2s, and with none) whose config (weak prior contents) went through DefaultServerTLSConfig - observed: session-auth / request-auth / handler invocations and whether a KMIP response came back; and a TLS server with each certificate x version impersonates towards a Client prepared by DefaultClientTLSConfig - observed: Connect result and application bytes received. Expected outcome = the model's handshake predicate. Plus client sequences: a trusting Client first, then a Client trusting only another CA against the same endpoint (TLS 1.2 and 1.3). distinct = one per matrix cell"
 	r.Exhaustive = true
 	ca, other := tlsm.NewCA("kmip-test-ca"), tlsm.NewCA("foreign-ca")
 	serverCert := tlsm.Leaf(ca, tlsm.LeafOpts{Host: "kmip.test"})
@@ -245,5 +246,70 @@ func runC16(r *Result, d *drv.Driver, tier string, seed int64, replay string) {
 				r.find(Finding{Kind: "disagreement", What: "a server the TLS model admits was refused by the Client", Input: key, Expect: "connected", Actual: "refused"})
 			}
 		}
+	}
+}
+
+// c16Sequences: what one Client does must not weaken the next one. A first Client (trusting the server's CA) connects and
+// completes an exchange; then a second Client, prepared by DefaultClientTLSConfig from a config that trusts only ANOTHER CA,
+// connects to the same endpoint: it must refuse the server exactly as it would on first contact (no state shared between
+// configurations - session caches, verified chains - may let it skip verification).
+func c16Sequences(r *Result) {
+	ca, other := tlsm.NewCA("kmip-seq-ca"), tlsm.NewCA("other-seq-ca")
+	for _, v := range []struct {
+		name string
+		max  uint16
+	}{{"1.2", tls.VersionTLS12}, {"1.3", tls.VersionTLS13}} {
+		key := "client-sequence max=" + v.name + ": trusting client first, then a client trusting only another CA, same endpoint"
+		r.eval(key, true)
+		scfg := &tls.Config{Certificates: []tls.Certificate{tlsm.Leaf(ca, tlsm.LeafOpts{Host: "127.0.0.1"})}, ClientCAs: ca.Pool, MaxVersion: v.max}
+		kmip.DefaultServerTLSConfig(scfg)
+		ln, err := tls.Listen("tcp", "127.0.0.1:0", scfg)
+		if err != nil {
+			r.find(Finding{Kind: "disagreement", What: "cannot listen", Input: err.Error()})
+			return
+		}
+		s := &kmip.Server{}
+		var served int32
+		s.Handle(kmip.OPERATION_ACTIVATE, func(ctx *kmip.RequestContext, item *kmip.RequestBatchItem) (interface{}, error) {
+			atomic.AddInt32(&served, 1)
+			return kmip.ActivateResponse{UniqueIdentifier: "x"}, nil
+		})
+		init := make(chan struct{})
+		done := make(chan error, 1)
+		go func() { done <- s.Serve(ln, init) }()
+		<-init
+		clientCert := tlsm.Leaf(ca, tlsm.LeafOpts{Host: "client", Client: true})
+		mk := func(pool *tlsm.CA) *kmip.Client {
+			cfg := &tls.Config{RootCAs: pool.Pool, Certificates: []tls.Certificate{clientCert}}
+			kmip.DefaultClientTLSConfig(cfg)
+			return &kmip.Client{Endpoint: ln.Addr().String(), TLSConfig: cfg, ReadTimeout: 2 * time.Second, WriteTimeout: 2 * time.Second}
+		}
+		good := mk(ca)
+		obs := ""
+		if err := good.Connect(); err != nil {
+			obs = "first client could not connect: " + err.Error()
+		} else {
+			for i := 0; i < 2; i++ { // (under TLS 1.3 the ticket arrives with the first application data)
+				_, _ = good.Send(kmip.OPERATION_ACTIVATE, kmip.ActivateRequest{UniqueIdentifier: "a"})
+			}
+			good.Close()
+		}
+		before := atomic.LoadInt32(&served)
+		bad := mk(other)
+		err = bad.Connect()
+		if err == nil {
+			_, _ = bad.Send(kmip.OPERATION_ACTIVATE, kmip.ActivateRequest{UniqueIdentifier: "a"})
+		}
+		bad.Close()
+		obs += fmt.Sprintf("second-client-connected=%v requests-it-got-served=%d", err == nil, atomic.LoadInt32(&served)-before)
+		if obs != "second-client-connected=false requests-it-got-served=0" {
+			r.find(Finding{Kind: "violation", What: "a Client talked to a server whose certificate does not verify against its own root pool (after another Client had connected there)", Input: key,
+				Expect: "second-client-connected=false requests-it-got-served=0", Actual: obs})
+		}
+		ctx, cancel := context.WithTimeout(context.Background(), 5*time.Second)
+		_ = s.Shutdown(ctx)
+		cancel()
+		<-done
+		r.Stats["client-sequence-scenarios"]++
 	}
 }
